@@ -597,6 +597,13 @@ class Taint:
                 rv = s[2]
                 if rv[0] == "bin" and rv[1] in ("Div", "Rem") and max(self._op_level(fv, lv, rv[2]), self._op_level(fv, lv, rv[3])) == 2:
                     self._sink(f, "secret-div", "div", fv.loc(s[3]), "division/remainder with a secret-dependent operand")
+                if rv[0] == "bin" and rv[1] == "BitAnd":
+                    for o in (rv[2], rv[3]):
+                        l = op_local(o)
+                        if l is not None and lv.get(l, 0) == 2 and self._expanded_secret_bit(fv, lv, l):
+                            self._sink(f, "secret-mask", "mask@%s" % self._origin_name(fv, l), fv.loc(s[3]),
+                                       "a selection mask is expanded from a secret bit by plain arithmetic (x.wrapping_sub(1) / wrapping_neg / 0 - x) and and-ed in: without "
+                                       "subtle's optimisation barrier compilers turn this into a branch on the secret (RUSTSEC-2024-0344); use Choice / conditional_select")
             t = b.get("t")
             if not t:
                 continue
@@ -604,6 +611,38 @@ class Taint:
                 self._sink(f, "secret-branch", "switch@%s" % self._origin_name(fv, op_local(t["discr"])), fv.loc(t["line"]), "branch on a secret-dependent value")
             if t["k"] == "assert" and self._op_level(fv, lv, t["cond"]) == 2:
                 self._sink(f, "secret-assert", "assert:%s" % t["msg"], fv.loc(t["line"]), "run-time check (%s) whose outcome depends on a secret" % t["msg"])
+
+    def _expanded_secret_bit(self, fv, lv, l, depth=0):
+        """is local l (through copies / casts) defined as  s.wrapping_sub(1), s.wrapping_neg(), 0 - s, -s  or the bitwise not of such, s secret"""
+        if depth > 4:
+            return False
+        ds = fv.defs.get(l, [])
+        if len(ds) != 1:
+            return False
+        d = ds[0]
+        if d.kind == "call" and not d.via_mutref:
+            n = cname(d.term)
+            a = d.term["args"]
+            if re.search(r"core::num::<impl (u|i)\d+>::wrapping_sub$", n) and len(a) == 2:
+                c = op_const(a[1])
+                return bool(c) and c.get("v") == 1 and self._op_level(fv, lv, a[0]) == 2
+            if re.search(r"core::num::<impl (u|i)\d+>::wrapping_neg$", n) and a:
+                return self._op_level(fv, lv, a[0]) == 2
+            return False
+        if d.kind == "assign" and not d.proj:
+            rv = d.rv
+            if rv[0] == "use" or rv[0] == "cast":
+                src = op_local(rv[1] if rv[0] == "use" else rv[2])
+                return src is not None and self._expanded_secret_bit(fv, lv, src, depth + 1)
+            if rv[0] == "un" and rv[1] == "Neg":
+                return self._op_level(fv, lv, rv[2]) == 2
+            if rv[0] == "un" and rv[1] == "Not":
+                src = op_local(rv[2])
+                return src is not None and self._expanded_secret_bit(fv, lv, src, depth + 1)
+            if rv[0] == "bin" and rv[1] in ("Sub", "SubUnchecked"):
+                c = op_const(rv[2])
+                return bool(c) and c.get("v") == 0 and self._op_level(fv, lv, rv[3]) == 2
+        return False
 
     def _places_of_stmt(self, s):
         out = [s[1]]
